@@ -410,6 +410,46 @@ Fixpoint seq_scales (sizes flags : list Z) (rest : list Z) : list (option (list 
 Definition dfsd_read_scales (sizes : list Z) (rec : list Z) : list (option (list Z)) :=
   let rank := length sizes in seq_scales sizes (firstn rank rec) (skipn rank rec).
 
+(* --------------------------------------- the single-file SDS writer between datasets (dfsd.c Ref.scales) *)
+(** Writesdg.dimscales together with Ref.scales: -1 = no scales record, 0 = scales were modified and have to be
+    written again, r > 0 = the record with ref r (its content is kept here as a ghost) is up to date and is
+    shared by the following datasets.  Which setter assigns what is read off the source by the translator. *)
+Record wscales := mkWs { wsc_scales : list (option (list Z)); wsc_ref : Z; wsc_written : list Z }.
+
+Definition has_scale (l : list (option (list Z))) : bool :=
+  existsb (fun s => match s with Some _ => true | None => false end) l.
+Fixpoint set_scale (n : nat) (v : option (list Z)) (l : list (option (list Z))) : list (option (list Z)) :=
+  match l, n with [], _ => [] | _ :: t, O => v :: t | h :: t, S k => h :: set_scale k v t end.
+
+(** DFSDsetdimscale(dim, size, scale): scale == NULL frees the dimension's scale *)
+Definition wsc_setscale (st : wscales) (dim : nat) (s : option (list Z)) : wscales :=
+  let marks := match s with Some _ => DFSDsetdimscale_set_marks_modified | None => DFSDsetdimscale_null_marks_modified end in
+  mkWs (set_scale dim s (wsc_scales st)) (if marks then 0 else wsc_ref st) (wsc_written st).
+
+(** DFSDsetdims with new dimensions / DFSDclear (DFSDIclear) and DFSDsetNT with a new type (DFSDIclearNT) *)
+Definition wsc_forget (flag : bool) (rank : nat) (st : wscales) : wscales :=
+  mkWs (repeat None rank) (if flag then -1 else wsc_ref st) (wsc_written st).
+
+(** DFSDIputndg for the dataset that gets ref r: the new state and the scales record the NDG refers to *)
+Definition wsc_put (st : wscales) (r : Z) : wscales * option (list Z) :=
+  if wsc_ref st =? 0 then
+    if has_scale (wsc_scales st)
+    then (mkWs (wsc_scales st) r (sds_encode (wsc_scales st)), Some (sds_encode (wsc_scales st)))
+    else (mkWs (wsc_scales st) (-1) (wsc_written st), None)
+  else if 0 <? wsc_ref st then (st, Some (wsc_written st)) else (st, None).
+
+Inductive wop := WSet (dim : nat) (s : option (list Z)) | WNewDims (rank : nat) | WNewNT (rank : nat) | WPut (r : Z).
+Definition wsc_step (st : wscales) (op : wop) : wscales * list (list (option (list Z)) * option (list Z)) :=
+  match op with
+  | WSet d s => (wsc_setscale st d s, [])
+  | WNewDims rank => (wsc_forget DFSDIclear_forgets_scales_record rank st, [])
+  | WNewNT rank => (wsc_forget DFSDIclearNT_forgets_scales_record rank st, [])
+  | WPut r => let (st', rec) := wsc_put st r in (st', [(wsc_scales st, rec)])
+  end.
+(** every dataset written: the scales in effect and the record its NDG refers to *)
+Fixpoint wsc_run (st : wscales) (ops : list wop) : list (list (option (list Z)) * option (list Z)) :=
+  match ops with [] => [] | op :: r => let (st', out) := wsc_step st op in out ++ wsc_run st' r end.
+
 (* ------------------------------------------------ the coordinate variable of a dimension (mfsd.c SDgetdimstrs) *)
 (** strncmp(a, b, strlen(a)) == 0 for names without embedded NUL *)
 Fixpoint prefix_eqb (a b : list Z) : bool :=
